@@ -2,6 +2,7 @@ package main
 
 import (
 	"fmt"
+	"go/constant"
 	"go/token"
 	"go/types"
 	"sort"
@@ -564,6 +565,90 @@ func checkC02Layout(c *Check, p *Program) {
 		c.Decide(ok, "C02.primitive", "device names are ISO 8859-1", p.Pos(g.Pos()), "stringCharmap = charmap.ISO8859_1", "the string codec is not ISO 8859-1: Latin-1 names the KNXnet/IP specification allows fail to encode (and encode as an empty name, the error being ignored)")
 	} else {
 		c.Fail("C02.primitive", "util.stringCharmap", "", "not found")
+	}
+	// every string the decoder hands out went through the charmap decoder - or consists of octets below 0x80
+	// only (identical in ISO 8859-1 and UTF-8), established by a scan whose continuing edge admits no other octet
+	if us := p.Func("knx/util", "UnpackString"); us != nil {
+		var outP *ssa.Parameter
+		for _, prm := range us.Params {
+			if pt, ok := prm.Type().(*types.Pointer); ok {
+				if b, ok := pt.Elem().Underlying().(*types.Basic); ok && b.Kind() == types.String {
+					outP = prm
+				}
+			}
+		}
+		nSt := 0
+		instrsOf(us, func(in ssa.Instruction) {
+			st, ok := in.(*ssa.Store)
+			if !ok || outP == nil || st.Addr != ssa.Value(outP) {
+				return
+			}
+			nSt++
+			cv, isCv := st.Val.(*ssa.Convert)
+			decoded := false
+			if isCv {
+				if ex, ok := cv.X.(*ssa.Extract); ok {
+					if call, ok := ex.Tuple.(*ssa.Call); ok {
+						if o := calleeObj(call); o != nil && o.Name() == "Bytes" {
+							decoded = true
+						}
+					}
+				}
+			}
+			if decoded {
+				c.OK("C02.primitive", "util.UnpackString result comes from the charmap decoder", p.InstrPos(st), "string(decoder.Bytes(...))")
+				return
+			}
+			// a bypass: admissible only behind a scan of the octets that lets nothing above 0x7F continue
+			okScan := false
+			worst := -1
+			for _, lp := range loopsOf(us) {
+				if !lp.Header.Dominates(st.Block()) {
+					continue
+				}
+				for b := range lp.Body {
+					iff := ifOf(b)
+					if iff == nil || len(b.Succs) != 2 {
+						continue
+					}
+					for si, sc := range b.Succs {
+						if !lp.Body[sc] {
+							continue // this edge leaves the loop
+						}
+						cm, _ := cmpOf(iff.Cond, si == 0)
+						for _, side := range []ssa.Value{cm.X, cm.Y} {
+							w, _, okw := typeWidth(side.Type(), "amd64")
+							if !okw || w != 8 {
+								continue
+							}
+							if _, isK := side.(*ssa.Const); isK {
+								continue
+							}
+							// octets for which the scan continues on this edge
+							okAll := true
+							for x := int64(0); x < 256; x++ {
+								v, known := finExpr(iff.Cond, side, x, nil, 0)
+								if !known || v.Kind() != constant.Bool {
+									okAll = false
+									break
+								}
+								if constant.BoolVal(v) == (si == 0) && x > 0x7F {
+									okAll = false
+									if int(x) > worst {
+										worst = int(x)
+									}
+								}
+							}
+							if okAll {
+								okScan = true
+							}
+						}
+					}
+				}
+			}
+			c.Decide(okScan && worst < 0, "C02.primitive", "util.UnpackString result comes from the charmap decoder", p.InstrPos(st), "plain-ASCII fast path behind a scan that admits octets below 0x80 only", fmt.Sprintf("a string is handed out without passing the ISO 8859-1 decoder and the scan before it lets the octet %#x through: octets above 0x7F are not valid UTF-8 on their own, the name comes back as an invalid string", worst))
+		})
+		c.Floor("C02.primitive", "stores of the decoded string in util.UnpackString", nSt, 1)
 	}
 }
 
